@@ -1,7 +1,7 @@
 (* C31 — macro expansion is hygienic except where explicitly unhygienic.
    Only statements here; proofs live in Proofs/C31_Hygiene.v; the model in Model/C31_Hygiene.v. *)
 From Coq Require Import ZArith NArith List Bool.
-From Elk Require Import Model.C31_Hygiene Proofs.C31_Hygiene.
+From Elk Require Import Model.C31_Hygiene Model.C31_Cond Proofs.C31_Hygiene Proofs.C31_Cond.
 Import ListNotations.
 Open Scope Z_scope.
 
@@ -142,3 +142,43 @@ Example C31_expand_all_nonvacuous :
   = SSeq (SLet 0%N (ELit 1))
          (SBlock (SSeq (SLet 200%N (EUnhyg (EVar 0%N))) (SBlock (SPrint (EUnhyg (EVar 200%N)))))).
 Proof. vm_compute. reflexivity. Qed.
+
+(* Conditions that are (or contain) unhygienic splices do not open the boundary for the rest of the
+   expansion.  `ifc u c t e` (Model/C31_Cond.v) is the conditional whose condition c is built from
+   truthiness tests, !, &&, || and `!{Macro.unhygienic(quote c')}` (CUnhyg: the leaves of c' resolve
+   through the boundary, whatever they mention).  (1) Below a boundary frame b whose frames J ++ [b]
+   do not declare x - whatever the caller's environment r contains, in particular when r defines x and
+   the unhygienic condition reads it - a conditional whose then- or else-branch is rejected wherever x
+   does not resolve hygienically is rejected by the checker pass; (2) such branches are: a hygienic read
+   of x (expression statement or println), a hygienic assignment x = e', and any sequence starting
+   with one; (3) after the conditional the environment has the frames and names it had before, so a
+   name unresolvable before it (hygienically or not) is unresolvable after it. *)
+Theorem C31_unhyg_condition_no_leak :
+  (forall x c u t e J b r,
+     ftyp b = FBoundary -> (forall f, In f (J ++ [b]) -> get f x = None) ->
+     cond_nobind x c = true -> stuck x t \/ stuck x e ->
+     run Static (J ++ b :: r) false (ifc u c t e) = None) /\
+  (forall x, stuck x (SExpr (EVar x)) /\ stuck x (SPrint (EVar x)) /\
+     (forall e', expr_nobind x e' = true -> stuck x (SExpr (ESet x e'))) /\
+     (forall a b, stuck x a -> stuck x (SSeq a b))) /\
+  (forall c m r u0 u t e r' o x u',
+     run m r u0 (ifc u c t e) = Some (r', o) -> resolve r x u' = None -> resolve r' x u' = None).
+Proof.
+  split; [exact unhyg_condition_no_leak|]. split; [|exact unhyg_condition_after].
+  intro x. destruct (stuck_read x) as [H1 H2]. repeat split; auto using stuck_assign, stuck_seq.
+Qed.
+Print Assumptions C31_unhyg_condition_no_leak.
+
+(* caller: a := 41.  if !{unhygienic(a)} then println(a): rejected (the seeded C31b checker accepted it
+   and printed 41); with println(!{unhygienic(a)}) accepted, prints 41; `!{unhygienic(a && b)}` and
+   `!!{unhygienic(a)}` with a hygienic assignment in the else branch: rejected *)
+Example C31_unhyg_condition_nonvacuous :
+  let r := [mkFrame FDefault [(0%N, 41); (1%N, 0)]] in
+  accepts r (SBoundary (ifc false (CUnhyg (CE (EVar 0%N))) (SPrint (EVar 0%N)) SSkip)) = false /\
+  run Dynamic r false (SBoundary (ifc false (CUnhyg (CE (EVar 0%N))) (SPrint (EUnhyg (EVar 0%N))) SSkip))
+    = Some (r, [41]) /\
+  accepts r (SBoundary (ifc false (CUnhyg (CAnd (CE (EVar 0%N)) (CE (EVar 1%N)))) SSkip (SAssign 1%N (ELit 7)))) = false /\
+  accepts r (SBoundary (ifc false (CNot (CUnhyg (CE (EVar 0%N)))) SSkip (SAssign 0%N (ELit 7)))) = false /\
+  run Dynamic r false (SBoundary (ifc false (CNot (CUnhyg (COr (CE (EVar 1%N)) (CE (EVar 0%N))))) (SPrint (ELit 1)) (SPrint (ELit 2))))
+    = Some (r, [2]).
+Proof. vm_compute. auto. Qed.
